@@ -56,9 +56,14 @@ def run(module, cfg_text=None, cfg=None, *, workers=1, env=None, timeout=900, du
         else:
             cfgp = os.path.join(SPEC_DIR, cfg or (module + ".cfg"))
         meta = tempfile.mkdtemp(prefix="meta_", dir=wd)
-        cmd = ["java", "-Xss" + xss, "-XX:+UseParallelGC"]
-        if heap:
-            cmd.append("-Xmx" + heap)
+        if workers == 1:
+            # many single-worker validators run side by side: keep each JVM small and single-threaded
+            cmd = ["java", "-Xss" + xss, "-XX:+UseSerialGC", "-XX:ActiveProcessorCount=2", "-XX:TieredStopAtLevel=4",
+                   "-Xmx" + (heap or "3g")]
+        else:
+            cmd = ["java", "-Xss" + xss, "-XX:+UseParallelGC"]
+            if heap:
+                cmd.append("-Xmx" + heap)
         cmd += ["-cp", JAR, "tlc2.TLC", "-workers", str(workers), "-metadir", meta,
                 "-noGenerateSpecTE", "-config", cfgp]
         if dump:
